@@ -411,13 +411,15 @@ class ControlUnderlyings(Lemma):
     written on the whole spot vector: every control is evaluated from the product's payoff underlying of THIS path (its own
     component), through the four-argument call the engine makes."""
     prop = "C07"
-    cases = (2, 3)
+    cases = (2, 3, "same-class-other-term")
 
     def __init__(self):
         self.name = "property:controls-on-the-nth-spot"
 
     def prove(self, vc, d):
         from pyvc.sym import PyRaise
+        if d == "same-class-other-term":
+            return self.prove_same_class(vc)
         nm = f"{self.name}[{d} names]"
         it = vc.interp
         UND = "rpylib.product.underlying:"
@@ -440,10 +442,38 @@ class ControlUnderlyings(Lemma):
         for k in range(min(d, len(res))):
             vc.check(nm + f"::control{k}-is-its-own-product-on-its-own-component", compare(res[k], pay(k, pu[k]), "=="))
 
+    def prove_same_class(self, vc):
+        """the priced product is written on the FIRST spot, the control on the SECOND one (same underlying class, other term):
+        the control must be evaluated on its own component of the path, not on the product's payoff underlying"""
+        nm = f"{self.name}[product on NthSpot(1), control on NthSpot(2)]"
+        it = vc.interp
+        UND = "rpylib.product.underlying:"
+        PAYK = z3.Function("CONTROL_PRODUCT_PAYOFF", z3.IntSort(), z3.RealSort(), z3.RealSort())
+        pay = lambda k, u: Sym(PAYK(z3.IntVal(k), as_real_term(lift(u))), "r")
+        it.hooks["rpylib.product.product:Product.__call__"] = lambda it_, f, b: pay(b["self"].fields["tag"], [v for k_, v in b.items() if k_ != "self"][0])
+        ctrl = vc.new(UND + "NthSpot", 2)
+        own = vc.real("value_of_the_second_spot")
+        it.hooks[UND + "NthSpot.value"] = lambda it_, f, b: own if b["self"] is ctrl else vc.real("value_of_the_first_spot")
+        cv = vc.obj("rpylib.product.product:ControlVariates", products=[vc.obj("rpylib.product.product:Product", payoff_underlying=ctrl, tag=0)], prices=[0.0], nb_cvs=1, _underlying_functions=[])
+        vc.method(cv, "initialisation", it.get_class(UND + "NthSpot"))
+        pu = vc.real("payoff_underlying_of_the_priced_product")
+        path = np.array(vc.reals("path", 4), dtype=object).reshape(2, 2)
+        res = list(np.ravel(np.asarray(vc.method(cv, "process", np.array([0.0, 1.0]), path, path, pu), dtype=object)))
+        vc.check(nm + "::control-is-evaluated-on-its-own-underlying", len(res) == 1 and compare(res[0], pay(0, own), "=="))
+
     def replay(self, model, clause, d):
         from rpylib.product.product import Product, ControlVariates
         from rpylib.product.underlying import NthSpot, Spot
         from rpylib.product.payoff import Vanilla, PayoffType
+        if d == "same-class-other-term":
+            cvx = ControlVariates([Product(payoff_underlying=NthSpot(2), payoff=Vanilla(strike=1.0, payoff_type=PayoffType.CALL), maturity=1.0)], [0.1])
+            cvx.initialisation(NthSpot)
+            path = np.array([[1.0, 1.5], [1.0, 2.5]])        # identity representation: the path holds the spots themselves
+            pu = NthSpot(1).value(np.array([0.0, 1.0]), path, path)
+            got = float(np.ravel(cvx.process(np.array([0.0, 1.0]), path, path, pu))[0])
+            own = NthSpot(2).value(np.array([0.0, 1.0]), path, path)
+            want = float(max(float(np.ravel(own)[0]) - 1.0, 0.0))
+            return (abs(got - want) > 1e-12, {"terminal_spots": [1.5, 2.5], "control_on_the_second_spot": got, "its_own_payoff": want})
         prods = [Product(payoff_underlying=NthSpot(k + 1), payoff=Vanilla(strike=1.0, payoff_type=PayoffType.CALL), maturity=1.0) for k in range(d)]
         cv = ControlVariates(prods, [0.1] * d)
         cv.initialisation(Spot)
@@ -564,6 +594,16 @@ class StandardEngineBattery:
                     pr = [f"exception {type(e).__name__}: {e}"]
                 if pr and not viol:
                     viol.append({"obligation": f"{self.name}::textbook-price-error-and-control-variates", "bounded": self.name, "witness": {"config": {**kw, "seed": sd}, "problems": pr[:3]}})
+        # a payoff that returns an array it keeps (a stored coupon): the engine must not write into it (unit and non-unit notional)
+        for notional in (1.0, 2.5):
+            ev += 1
+            try:
+                pr = self.persistent_payoff_run(notional)
+            except Exception as e:
+                pr = [f"exception {type(e).__name__}: {e}"]
+            if pr:
+                viol.append({"obligation": f"{self.name}::engine-does-not-write-into-the-payoff's-own-array", "bounded": self.name, "witness": {"notional": notional, "problems": pr[:3]}})
+                break
         # worker-pool branch: exactly the configured number of paths is simulated and stored, also with fewer paths than workers
         for n_paths, workers in ((3, 4), (10, 2)):
             ev += 1
@@ -577,6 +617,28 @@ class StandardEngineBattery:
                 break
         return {"name": self.name, "evaluations": ev, "distinct_nontrivial": ev, "violations": viol, "samples": [],
                 "bound": f"{len(self.CONFIGS)} scripted configurations x seeds; at most 40 paths per price() call, at most 3 calls per engine; 2 worker-pool runs"}
+
+    @staticmethod
+    def persistent_payoff_run(notional):
+        from contracts import std_harness as H
+        from rpylib.montecarlo.configuration import ConfigurationStandard
+        from rpylib.montecarlo.standard.engine import Engine
+        from rpylib.product.product import Product
+        from rpylib.product.payoff import PayoffOnTheFly
+        coupon = np.array([100.0])
+        keep = coupon.copy()
+        Terminal = H._classes()
+        prod = Product(payoff_underlying=Terminal(0), payoff=PayoffOnTheFly(lambda u: coupon), maturity=1.0, notional=notional)
+        df, n = 0.9, 12
+        eng = Engine(ConfigurationStandard(mc_paths=n, seed=1, nb_of_processes=1), H.ScriptedProcess(np.zeros((n, 1)), df))
+        st = eng.price(prod)
+        out = []
+        if not np.array_equal(coupon, keep):
+            out.append(f"the payoff's stored array was modified: {coupon.tolist()} (was {keep.tolist()})")
+        price = float(np.ravel(st.price(no_control_variates=True))[0])
+        if abs(price - df * notional * 100.0) > 1e-9:
+            out.append(f"price {price} is not df * notional * coupon = {df * notional * 100.0}")
+        return out
 
     @staticmethod
     def pool_run(n_paths, workers):
